@@ -220,3 +220,218 @@ let check_impl_sys (d : dag) (s : isys) : string option =
   let names = List.map (function BVSymbol (n, _) -> n | ArraySymbol (n, _, _) -> n | _ -> []) decl in
   if List.length (List.sort_uniq compare names) <> List.length names then note "duplicate-symbol-name";
   !bad
+
+(* ------------------------------------------------------------------------------------------------
+   C08 handler.  Case: (case ID (profile P) (origin ..) (muts ..) (vseed N) (text "..") (impl R))
+   correspondence : Model.parse_text_raw vs R (class, and for Ok the whole system) - as for C18
+   property oracle: the reference interpreter Model.sem_text (Spec/Btor2Sem.v) run on the TEXT under
+                    valuations derived from vseed, against the extracted evaluator (ebv / earr) run on
+                    the IMPLEMENTATION's system under the same valuations: sorts of inputs and states,
+                    values of every init / next / output / bad / constraint; an accepted text must be
+                    well sorted according to the reference interpreter. *)
+let pow2 (w : n) : n = N.pow n_two w
+
+let rand_bits (st : Random.State.t) (w : int) : n =
+  let acc = ref N0 in
+  for _ = 1 to w do
+    acc := N.mul n_two !acc;
+    if Random.State.bool st then acc := N.add !acc (n_of_int 1)
+  done;
+  !acc
+
+(* trial 0: all zero, trial 1: all ones, others random with corner values mixed in *)
+let pick_value (st : Random.State.t) (trial : int) (w : n) : n =
+  let wi = int_of_n w in
+  if trial = 0 then N0
+  else if trial = 1 then N.sub (pow2 w) (n_of_int 1)
+  else match Random.State.int st 8 with
+    | 0 -> N0
+    | 1 -> N.sub (pow2 w) (n_of_int 1)
+    | 2 -> pow2 (N.sub w (n_of_int 1))
+    | 3 -> n_of_int 1
+    | _ -> rand_bits st wi
+
+type symval = SV of n | SF of (n -> n)
+
+let sem_err_name = function
+  | B2IllSorted -> "ill-sorted" | B2ZeroWidth -> "zero-width" | B2ExtArray -> "ext-of-array" | B2PropWidth -> "prop-width"
+  | B2Unsupported -> "unsupported" | B2Syntax -> "syntax"
+
+let zero_val : b2val = { in_bv = (fun _ -> N0); in_arr = (fun _ _ -> N0); st_bv = (fun _ -> N0); st_arr = (fun _ _ -> N0) }
+
+let rec nat_of_int (i : int) : nat = if i <= 0 then O else S (nat_of_int (i - 1))
+let rec int_of_nat = function O -> 0 | S k -> 1 + int_of_nat k
+
+let is_plain_ss (s : b2state) : bool = (s.ss_init = None) && (s.ss_next = None)
+
+let value_eq (st : Random.State.t) (sv : value) (rho : env) (e : expr) : bool =
+  match sv, type_of e with
+  | VBV (w, v), TBV w' -> w = w' && v = ebv rho e
+  | VArr (iw, dw, f), TArr (iw', dw') ->
+      iw = iw' && dw = dw' &&
+      (let g = earr rho e in
+       let n_iw = int_of_n iw in
+       if n_iw <= 8 then begin
+         let ok = ref true in
+         for i = 0 to (1 lsl n_iw) - 1 do if f (n_of_int i) <> g (n_of_int i) then ok := false done;
+         !ok
+       end else
+         List.for_all (fun i -> f i = g i)
+           ([N0; n_of_int 1; N.sub (pow2 iw) (n_of_int 1)] @ List.init 6 (fun _ -> rand_bits st n_iw)))
+  | _, _ -> false
+
+(* operator of the first line the reference interpreter / the model of the reader stops at (for keys) *)
+let tok_op (toks : char list list) : string = match toks with _ :: op :: _ -> big_ocamlstr op | _ -> "?"
+
+let first_sem_error (ctext : char list) : string =
+  let rec go st = function
+    | [] -> "-"
+    | l :: ls -> (match sem_line zero_val st l with B2Ok st' -> go st' ls | B2Err _ -> tok_op l)
+  in
+  go b2sem_empty (List.map tokenize (split_lines ctext))
+
+let first_model_error (dbg : bool) (ctext : char list) : string =
+  let rec go st = function
+    | [] -> "-"
+    | l :: ls -> (match parse_line dbg st l with POk st' -> go st' ls | _ -> tok_op l)
+  in
+  go p_empty (List.map tokenize (split_lines ctext))
+
+let handle_c08 (x : Sexp.t) : string =
+  let id, fs = case_fields x in
+  let dbg = Sexp.atom (Sexp.field1 "profile" fs) = "debug" in
+  let text = Sexp.atom (Sexp.field1 "text" fs) in
+  let vseed = int_of_string (Sexp.atom (Sexp.field1 "vseed" fs)) in
+  let impl = Sexp.field1 "impl" fs in
+  let ctext = big_coqstr text in
+  (* resource guard: widths / extension amounts above 65536 make the evaluators build astronomically large numbers *)
+  let huge =
+    List.exists (fun line ->
+        match List.filter (fun t -> t <> "") (String.split_on_char ' ' (String.map (fun c -> if c = '\t' || c = '\r' then ' ' else c) line)) with
+        | _ :: "sort" :: "bitvec" :: w :: _ -> (try int_of_string w > 65536 with _ -> String.length w > 6)
+        | _ :: ("uext" | "sext") :: _ :: _ :: by :: _ -> (try int_of_string by > 65536 with _ -> String.length by > 6)
+        | _ -> false) (String.split_on_char '\n' text) in
+  (* array equality is decided over the whole index space: skip texts that combine eq/neq with an array sort whose
+     index sort is wider than 10 bits (the generator does not produce them; mutations and edge templates can) *)
+  let big_array_eq =
+    let lines = List.map (fun line -> List.filter (fun t -> t <> "") (String.split_on_char ' ' (String.map (fun c -> if c = '\t' || c = '\r' then ' ' else c) line)))
+        (String.split_on_char '\n' text) in
+    let widths = List.filter_map (function id :: "sort" :: "bitvec" :: w :: _ -> (try Some (id, int_of_string w) with _ -> None) | _ -> None) lines in
+    let big_arr_sorts = List.filter_map (function id :: "sort" :: "array" :: i :: _ -> (match List.assoc_opt i widths with Some w when w > 10 -> Some id | _ -> None) | _ -> None) lines in
+    let node_sort = List.filter_map (function id :: op :: sid :: _ when op <> "sort" -> Some (id, sid) | _ -> None) lines in
+    let strip t = if String.length t > 0 && t.[0] = '-' then String.sub t 1 (String.length t - 1) else t in
+    let is_big_arr t = match List.assoc_opt (strip t) node_sort with Some sid -> List.mem sid big_arr_sorts | None -> false in
+    List.exists (function _ :: ("eq" | "neq") :: _ :: a :: b :: _ -> is_big_arr a || is_big_arr b | _ -> false) lines in
+  if huge then Registry.result ~id ~status:"skip" ~key:"huge-width" () else
+  if big_array_eq then Registry.result ~id ~status:"skip" ~key:"array-eq-large-index" () else
+  let sem0 = sem_text zero_val ctext in
+  let semclass = match sem0 with B2Ok _ -> "well-formed" | B2Err e -> sem_err_name e in
+  match impl with
+  | Sexp.List (Sexp.Atom "panic" :: loc :: _) ->
+      (match sem0 with
+       | B2Ok _ -> Registry.result ~id ~status:"fail" ~key:("rejects-well-formed:panic:" ^ Sexp.atom loc) ~detail:"the reference interpreter accepts the text, parse_str panics" ()
+       | B2Err _ -> Registry.result ~id ~status:"ok" ~key:("panic+" ^ semclass) ())
+  | Sexp.List [Sexp.Atom "err"] ->
+      (match sem0 with
+       | B2Ok _ -> Registry.result ~id ~status:"fail" ~key:("rejects-well-formed:" ^ first_model_error dbg ctext) ~detail:"the reference interpreter accepts the text, parse_str reports errors" ()
+       | B2Err _ ->
+           (match parse_text_raw dbg ctext with
+            | PErr -> Registry.result ~id ~status:"ok" ~key:("err+" ^ semclass) ()
+            | _ -> Registry.result ~id ~status:"diff" ~key:"class" ~detail:"impl err, model differs" ()))
+  | Sexp.List (Sexp.Atom "ok" :: fields) ->
+      let (d, s) = impl_ok_of_sexp fields in
+      (match sem0 with
+       | B2Err B2Syntax | B2Err B2Unsupported ->
+           Registry.result ~id ~status:"skip" ~key:("accepted-outside-reference:" ^ semclass ^ ":" ^ first_sem_error ctext)
+             ~detail:"accepted, but the reference interpreter cannot read the text (lenient number syntax)" ()
+       | B2Err B2IllSorted -> Registry.result ~id ~status:"fail" ~key:"accepts-ill-sorted" ()
+       | B2Err e -> Registry.result ~id ~status:"fail" ~key:("accepts-ill-sorted:" ^ sem_err_name e) ()
+       | B2Ok s0 ->
+           (* model vs implementation *)
+           let corr =
+             match parse_text_raw dbg ctext with
+             | POk (raw, ren) -> (match compare_sys d s (demote raw) ren with None -> None | Some w -> Some ("system: " ^ w))
+             | _ -> Some "class: impl ok, model not" in
+           let sizes = tree_sizes d in
+           let total = Array.fold_left (fun a k -> min (1 lsl 40) (a + k)) 0 sizes in
+           if total > 3000000 then
+             (match corr with
+              | Some w -> Registry.result ~id ~status:"diff" ~key:"system" ~detail:w ()
+              | None -> Registry.result ~id ~status:"skip" ~key:"too-large-to-evaluate" ())
+           else begin
+             let g i = d.nodes.(i) in
+             let nin = int_of_nat s0.m_nin in
+             let sstates = s0.m_states in
+             let plain = List.filter is_plain_ss sstates and nonplain = List.filter (fun x -> not (is_plain_ss x)) sstates in
+             let problem = ref None in
+             let note k = if !problem = None then problem := Some k in
+             if List.length s.i_inputs <> nin + List.length plain then note "structure:input-count";
+             if List.length s.i_states <> List.length nonplain then note "structure:state-count";
+             if List.length s.i_outputs <> List.length s0.m_outputs then note "structure:output-count";
+             if List.length s.i_bads <> List.length s0.m_bads then note "structure:bad-count";
+             if List.length s.i_constraints <> List.length s0.m_constraints then note "structure:constraint-count";
+             if !problem = None then begin
+               (* symbol of the k-th state line of the text *)
+               let state_sym : expr array =
+                 let res = Array.make (List.length sstates) (BVLiteral (N0, N0)) in
+                 let pi = ref 0 and ni = ref 0 in
+                 List.iteri (fun j ss ->
+                     if is_plain_ss ss then (res.(j) <- g (List.nth s.i_inputs (nin + !pi)); incr pi)
+                     else (let (sy, _, _) = List.nth s.i_states !ni in res.(j) <- g sy; incr ni)) sstates;
+                 res in
+               List.iteri (fun j ss -> if type_of state_sym.(j) <> ss.ss_sort then note "sort:state") sstates;
+               let st = Random.State.make [| vseed |] in
+               let syms = List.map g s.i_inputs @ List.map (fun (sy, _, _) -> g sy) s.i_states in
+               for trial = 0 to 3 do
+                 if !problem = None then begin
+                   let asg = List.map (fun sy ->
+                       match sy with
+                       | BVSymbol (_, w) -> (sy, SV (pick_value st trial w))
+                       | ArraySymbol (_, _, dw) ->
+                           let a = pick_value st trial dw and b = pick_value st trial dw in
+                           (sy, SF (fun i -> N.modulo (N.add (N.mul a i) b) (pow2 dw)))
+                       | _ -> (sy, SV N0)) syms in
+                   let look sy = try List.assoc sy asg with Not_found -> SV N0 in
+                   let rho = { rho_bv = (fun nm w -> match look (BVSymbol (nm, w)) with SV v -> v | _ -> N0);
+                               rho_arr = (fun nm iw dw -> match look (ArraySymbol (nm, iw, dw)) with SF f -> f | _ -> (fun _ -> N0)) } in
+                   let sym_bv (e : expr) = match look e with SV v -> v | _ -> N0 in
+                   let sym_arr (e : expr) = match look e with SF f -> f | _ -> (fun _ -> N0) in
+                   let input_sym k = let k = int_of_nat k in if k < nin then g (List.nth s.i_inputs k) else BVLiteral (N0, N0) in
+                   let state_sym' k = let k = int_of_nat k in if k < Array.length state_sym then state_sym.(k) else BVLiteral (N0, N0) in
+                   let vl = { in_bv = (fun k -> sym_bv (input_sym k)); in_arr = (fun k -> sym_arr (input_sym k));
+                              st_bv = (fun k -> sym_bv (state_sym' k)); st_arr = (fun k -> sym_arr (state_sym' k)) } in
+                   (match sem_text vl ctext with
+                    | B2Err _ -> note "reference-unstable"
+                    | B2Ok sm ->
+                        List.iteri (fun k sv -> if not (value_eq st sv rho (g (snd (List.nth s.i_outputs k)))) then note "value:output") sm.m_outputs;
+                        List.iteri (fun k sv -> if not (value_eq st sv rho (g (List.nth s.i_bads k))) then note "value:bad") sm.m_bads;
+                        List.iteri (fun k sv -> if not (value_eq st sv rho (g (List.nth s.i_constraints k))) then note "value:constraint") sm.m_constraints;
+                        let ni = ref 0 in
+                        List.iter (fun ss ->
+                            if not (is_plain_ss ss) then begin
+                              let (_, i, n) = List.nth s.i_states !ni in
+                              incr ni;
+                              (match ss.ss_init, i with
+                               | None, None -> ()
+                               | Some sv, Some e -> if not (value_eq st sv rho (g e)) then note "value:init"
+                               | _ -> note "structure:init-presence");
+                              (match ss.ss_next, n with
+                               | None, None -> ()
+                               | Some sv, Some e -> if not (value_eq st sv rho (g e)) then note "value:next"
+                               | _ -> note "structure:next-presence")
+                            end) sm.m_states;
+                        (* inputs: declared sorts *)
+                        for k = 0 to nin - 1 do
+                          ignore k
+                        done)
+                 end
+               done
+             end;
+             match !problem, corr with
+             | Some k, _ -> Registry.result ~id ~status:"fail" ~key:k ~detail:"implementation's system vs reference interpreter on the text" ()
+             | None, Some w -> Registry.result ~id ~status:"diff" ~key:"system" ~detail:w ()
+             | None, None -> Registry.result ~id ~status:"ok" ~key:"ok" ()
+           end)
+  | _ -> raise (Sexp.Parse_error "impl")
+
+let () = Registry.register "C08" handle_c08
